@@ -14,9 +14,9 @@ package cgnat
 // letters = o); bulk = 0 ok, 1 per-mapping error, 2 transport error of the bulk reprogram; C fires the delete
 // callbacks that are still pending, newest first.
 //
-// IPv4 addresses are decimal uint32.  Subscriber k is InsideVRF k>>16, InsideIP 10.0.(k>>8&255).(k&255); the
-// sessions of subscriber k >= 65536 carry VRF name "vrf<k>>16>", which the harness' vrf manager resolves to table
-// id k>>16.
+// IPv4 addresses are decimal uint32.  Subscriber k is InsideVRF k>>32, InsideIP = the four bytes of k&0xffffffff; the
+// sessions of subscriber k >= 2^32 carry VRF name "vrf<k>>32>", which the harness' vrf manager resolves to table
+// id k>>32.
 //
 //	mp <cfg tokens of p1> || <cfg tokens of p2> | v a:P:k g:P:k r:P:k R:P:k:ip:s:e I:P:k:ip:s:e d
 //
@@ -83,10 +83,10 @@ func vf15VRFManager() *vrfmgr.Manager {
 	return m
 }
 func vf15VRFName(k uint64) string {
-	if k>>16 == 0 {
+	if k>>32 == 0 {
 		return ""
 	}
-	return fmt.Sprintf("vrf%d", k>>16)
+	return fmt.Sprintf("vrf%d", k>>32)
 }
 
 // ---- fakes ----
@@ -223,16 +223,18 @@ func vf15IPNum(ip net.IP) uint32 {
 	return uint32(ip4[0])<<24 | uint32(ip4[1])<<16 | uint32(ip4[2])<<8 | uint32(ip4[3])
 }
 func vf15IP(n uint64) net.IP { return net.IPv4(byte(n>>24), byte(n>>16), byte(n>>8), byte(n)).To4() }
+// A subscriber number k is inside VRF k>>32 and the inside IPv4 address given by ALL four bytes of k's low 32 bits;
+// the projection back prints the full key.
 func vf15SubIP(k uint64) net.IP {
-	return net.IPv4(10, 0, byte(k>>8), byte(k)).To4()
+	return net.IPv4(byte(k>>24), byte(k>>16), byte(k>>8), byte(k)).To4()
 }
-func vf15SubVRF(k uint64) uint32 { return uint32(k >> 16) }
+func vf15SubVRF(k uint64) uint32 { return uint32(k >> 32) }
 func vf15Key(vrf uint32, ip net.IP) uint64 {
 	ip4 := ip.To4()
 	if ip4 == nil {
-		return 1 << 40
+		return 1 << 60
 	}
-	return uint64(vrf)<<16 | uint64(ip4[2])<<8 | uint64(ip4[3])
+	return uint64(vrf)<<32 | uint64(ip4[0])<<24 | uint64(ip4[1])<<16 | uint64(ip4[2])<<8 | uint64(ip4[3])
 }
 func vf15Num(s string) uint64 { n, _ := strconv.ParseUint(s, 10, 64); return n }
 
@@ -477,7 +479,7 @@ func vf15Mapping(k uint64, ip uint64, s, en uint64, vrfFromK bool) *models.CGNAT
 
 func vf15ParseRaw(f []string) (*cgnatcfg.Pool, error) {
 	raw := &cgnatcfg.Pool{Mode: "pba", OutsideInterfaces: []string{"eth0"},
-		InsidePrefixes: []cgnatcfg.InsidePrefix{{Prefix: "10.0.0.0/8"}}}
+		InsidePrefixes: []cgnatcfg.InsidePrefix{{Prefix: "0.0.0.0/0"}}}
 	for _, t := range f {
 		kv := strings.SplitN(t, "=", 2)
 		if len(kv) != 2 {
